@@ -5,13 +5,13 @@
     post-order of the tree. Operator slots are symbolic selectors that the solver enumerates.
 (3) eval.order: operands reach the operator in source order (left = earlier), array elements left to right — symbolic floats through the real VM."""
 import os, itertools, z3
-import symrt as rt, vmh, oblig, native, diffvm, sqfref
+import loader, symrt as rt, vmh, oblig, native, diffvm, sqfref
 from diffvm import Prog
 from C02 import G, N, T
 
 def registry():
     import glob
-    srcs = [f for f in glob.glob('/repo/src/**/*.cpp', recursive=True) + glob.glob('/repo/src/**/*.cc', recursive=True) if '/cli/' not in f and '/unused/' not in f and '/sqc/' not in f and '/export/' not in f]
+    srcs = [f for f in glob.glob(loader.REPO + '/src/**/*.cpp', recursive=True) + glob.glob(loader.REPO + '/src/**/*.cc', recursive=True) if '/cli/' not in f and '/unused/' not in f and '/sqc/' not in f and '/export/' not in f]
     exe = native.build('opsdump', sorted(srcs) + ['/verif/harness/opsdump.cpp'], sanitize=False)
     rc, out, err = native.run(exe, [], timeout=120)
     B = {}; U = set(); Nl = set(); order = []
@@ -205,7 +205,7 @@ def replay(spec):
     if spec.get('kind') == 'parse':
         # confirm on a native build with the complete real registry that the listing differs from the documented reading
         import glob
-        srcs = [f for f in glob.glob('/repo/src/**/*.cpp', recursive=True) + glob.glob('/repo/src/**/*.cc', recursive=True) if '/cli/' not in f and '/unused/' not in f and '/sqc/' not in f and '/export/' not in f]
+        srcs = [f for f in glob.glob(loader.REPO + '/src/**/*.cpp', recursive=True) + glob.glob(loader.REPO + '/src/**/*.cc', recursive=True) if '/cli/' not in f and '/unused/' not in f and '/sqc/' not in f and '/export/' not in f]
         exe = native.build('opsdump', sorted(srcs) + ['/verif/harness/opsdump.cpp'], sanitize=False)
         rc, out, err = native.run(exe, ['listing', spec['text'].encode('latin1').hex()], timeout=60)
         got = [l[2:] for l in out.split('\n') if l.startswith('I ')]
